@@ -302,6 +302,14 @@ func (q *Queue) Read(pids []packets.PacketID) (elems []*queue.Elem, err error) {
 	if err != nil {
 		return nil, wrapError(err)
 	}
+	if len(rs) == 0 {
+		// The list holds nothing at the read position although the length kept here says it does (a write
+		// that had been counted failed in the store): trust the store, so that the next Read waits for an
+		// Add instead of spinning on an empty range.
+		q.notifier.NotifyMsgQueueAdded(q.current - q.len)
+		q.len = q.current
+		return nil, nil
+	}
 	var msgQueueDelta, inflightDelta int
 	var pflag int
 	for i := 0; i < len(rs); i++ {
